@@ -73,11 +73,38 @@ def split_lon(lon):
     return hit[0], T.add(*off) if off else T.ZERO, hit[1]
 
 
-def lat_asin(lat):
+POLE_DIVISION = {}
+
+
+def lat_asin(lat, qual=None):
+    """third component Z of the output direction from the latitude-like result: asin(Z); or atan2(Z, R) / atan(Z / R) with R = sqrt(1 - Z^2)
+    the horizontal radius of the same unit vector.  The quotient form divides by R, which vanishes at the pole of the target system:
+    recorded in POLE_DIVISION (the property's domain includes the poles)."""
     r = radians_of_angle(lat)
-    if r is None or r[0] != "call" or r[1] != "asin":
+    if r is None or r[0] != "call":
         return None
-    return r[2]
+    if r[1] == "asin" and len(r) == 3:
+        return r[2]
+    z = rad = None
+    if r[1] == "atan2" and len(r) == 4:
+        z, rad = r[2], r[3]
+    elif r[1] == "atan" and len(r) == 3 and r[2][0] == "mul":
+        inv = [f for f in r[2][1:] if f[0] == "pow" and f[2] == T.num(-1)]
+        if len(inv) == 1:
+            rad = inv[0][1]
+            z = T.mul(*[f for f in r[2][1:] if f is not inv[0]])
+    if z is None or not (rad[0] == "call" and rad[1] == "sqrt" and len(rad) == 3) and not (rad[0] == "pow" and rad[2] == T.num(Fraction(1, 2))):
+        return None
+    rad2 = rad[2] if rad[0] == "call" else rad[1]
+    try:
+        unit = Algebra().equal(T.add(rad2, T.mul(z, z)), T.ONE)
+    except Exception:
+        unit = False
+    if not unit:
+        return None
+    if r[1] == "atan" and qual is not None:
+        POLE_DIVISION[qual] = T.show(rad)[:80]
+    return z
 
 
 def symbolize_constants(t, table):
@@ -101,7 +128,7 @@ def matrix_of(alg, qual, ret, consts):
     """3x3 matrix (list of lists of Poly) of the map u(A,D) -> w(out) and the
     unit-norm obligation.  Returns (M, norm_ok, info)."""
     sl = split_lon(ret[1])
-    z = lat_asin(ret[2])
+    z = lat_asin(ret[2], qual)
     if sl is None or z is None:
         raise AnalysisError("%s: result is not of the form (atan2(Y, X) [+ const], asin(Z))" % qual)
     sigma, off, a2 = sl
@@ -117,7 +144,18 @@ def matrix_of(alg, qual, ret, consts):
         if r.d == cdp.n:           # tan(D) = sin/cos: the cosine cancels exactly
             return Rat(r.n)
         raise AnalysisError("%s: cannot clear the denominator %r with cos(latitude)" % (qual, r.d))
-    P, Q, R = times_cd(x), times_cd(y), alg.rat(z)
+    R = alg.rat(z)
+    unit_form = False
+    try:
+        xr, yr = alg.rat(x), alg.rat(y)
+        if xr.d.is_const() and yr.d.is_const() and R.d.is_const():
+            unit_form = alg.reduce((xr * xr + yr * yr + R * R - Rat(Poly.const(1))).n).is_zero()
+    except Exception:
+        unit_form = False
+    if unit_form:
+        P, Q = xr, yr                  # atan2 is fed the components of the unit vector themselves (no common factor cos(latitude) divided out)
+    else:
+        P, Q = times_cd(x), times_cd(y)
     norm_ok = alg.reduce((P * P + Q * Q + R * R - Rat(Poly.const(1))).n).is_zero()
     bA = ("B", (((("V", "A"), 1), (("V", "d2r"), 1)), Fraction(1)),)
     # find actual base atoms for A and D
@@ -246,6 +284,8 @@ def run(repo, rep, tier):
     alg = Algebra()
     mats = {}
     consts = {}
+    n_unread = 0
+    POLE_DIVISION.clear()
     for f, g in PAIRS:
         for q in (f, g):
             rep.fn(MOD, q)
@@ -253,7 +293,16 @@ def run(repo, rep, tier):
             try:
                 W, norm_ok, info = matrix_of(alg, q, ret, consts)
             except AnalysisError as e:
-                rep.violation("R-E4-ID", MOD + "." + q, "shape", str(e), obligation=True)
+                # a result in a form this rule does not read is no evidence against the conversion
+                rep.inconcl("R-E4-ID", MOD + "." + q, "rotation not extracted: %s" % e)
+                n_unread += 1
+                W = None
+            if q in POLE_DIVISION:
+                rep.violation("R-E4-ID", MOD + "." + q, "pole-division",
+                              "the latitude-like result is atan(Z / R) with R = %s = sqrt(1 - Z^2): R is 0 for the direction that maps onto the pole of the target system "
+                              "(zenith / ecliptic or galactic pole), which the property includes - ZeroDivisionError there (atan2(Z, R) or asin(Z) have no such point)"
+                              % POLE_DIVISION[q], obligation=True)
+            if W is None:
                 continue
             mats[q] = W
             if norm_ok:
@@ -310,7 +359,10 @@ def run(repo, rep, tier):
     from .. import effects
     effects.check_functions(repo, rep, [(MOD, q) for pair in PAIRS for q in pair] +
                             [(MOD, "angular_separation"), (MOD, "relative_position_angle"), (MOD, "circle_diameter"), (MOD, "straight_line")])
-    rep.floor("conversion matrices", len(mats), 6)
+    rep.floor("conversion functions examined", len(mats) + n_unread, 6)
+    # premise of the evaluator: Angle / Epoch operators mean what their names say and leave their operands alone
+    from ..premises import operator_semantics
+    operator_semantics(repo, rep)
     return "other"
 
 
